@@ -507,4 +507,54 @@ theorem forestOK_processHeader_clean (r : Repo) (h : Hdr) (ok : Bool) (hf : Fore
     · rw [he]
       exact (forestOK_cleanWith _ hm (hc hne) _ (by decide)).1
 
+/-! ### Save of a root-best forest -/
+
+theorem saveBranchesGo_frame : ∀ (bs : List Nat) (r r' : Repo), saveBranches.go bs r = .ok r' →
+    r'.arena = r.arena ∧ r'.branches = r.branches ∧ r'.longest = r.longest := by
+  intro bs
+  induction bs with
+  | nil => intro r r' h; simp only [saveBranches.go, Except.ok.injEq] at h; subst h; exact ⟨rfl, rfl, rfl⟩
+  | cons bi rest ih =>
+    intro r r' h
+    simp only [saveBranches.go] at h
+    cases hbs : branchSave r (r.br bi) with
+    | error e => rw [hbs] at h; cases h
+    | ok r1 =>
+      rw [hbs] at h
+      obtain ⟨a1, a2, a3, _⟩ := branchSave_frame r r1 _ hbs
+      obtain ⟨b1, b2, b3⟩ := ih r1 r' h
+      exact ⟨by rw [b1, a1], by rw [b2, a2], by rw [b3, a3]⟩
+
+/-- **Save of a forest with no reorganisation pending** — complete or failed at any stage — touches storage
+    only: arena, tracked list and tip pointer are unchanged. -/
+theorem save_frame_rootFirst (r : Repo) (hrf : RootFirst r) :
+    (save r).1.arena = r.arena ∧ (save r).1.branches = r.branches ∧ (save r).1.longest = r.longest := by
+  obtain ⟨others, hbl, hroot⟩ := hrf
+  have hcons : consolidate r = .ok r := by
+    apply C10_consolidate_noop_aux
+    rw [hbl]
+    simp [hroot]
+  unfold save
+  rw [hcons]
+  simp only
+  cases hsm : saveMainBranch r with
+  | error e => exact ⟨rfl, rfl, rfl⟩
+  | ok r1 =>
+    simp only
+    obtain ⟨f1, f2, f3, _⟩ := saveMain_frame r r1 hsm
+    unfold saveBranches
+    cases hgo : saveBranches.go r1.branches r1 with
+    | error e => simp only; exact ⟨f1, f2, f3⟩
+    | ok r2 =>
+      simp only
+      obtain ⟨g1, g2, g3⟩ := saveBranchesGo_frame _ _ _ hgo
+      exact ⟨by show r2.arena = _; rw [g1, f1], by show r2.branches = _; rw [g2, f2], by show r2.longest = _; rw [g3, f3]⟩
+
+theorem forestOK_of_frame (r r' : Repo) (hf : ForestOK r) (ha : r'.arena = r.arena) (hb : r'.branches = r.branches) :
+    ForestOK r' := by
+  refine ⟨?_, by rw [ha, hb]; exact hf.linked, by rw [ha, hb]; exact hf.valid, by rw [ha, hb]; exact hf.len⟩
+  intro bi hbi
+  have : r'.br bi = r.br bi := by unfold Repo.br; rw [ha]
+  rw [this]; exact hf.ok bi (hb ▸ hbi)
+
 end BRV.Repo
